@@ -326,6 +326,38 @@ def _sw_shapes():
     return shapes
 
 
+def _same_token_text(t, v0, COMMENT, LIT):
+    """comments, literals and quoted names byte-identical; anything else up to the whitespace between its words (the quoted part of
+    AT TIME ZONE '..' byte-identical)"""
+    v1 = t.value
+    if not isinstance(v1, str):
+        return False
+    if COMMENT.contains(t.ttype) or LIT.contains(t.ttype) or v0[:1] in '`"[\'$':
+        return v1 == v0
+    h0, q0, l0 = v0.partition("'")
+    h1, q1, l1 = v1.partition("'")
+    return h0.split() == h1.split() and (q0, l0) == (q1, l1) and (not q0 or h0[-1:].isspace() == h1[-1:].isspace())
+
+
+MULTI_WORD = ('ORDER BY', 'GROUP BY', 'LEFT OUTER JOIN', 'UNION ALL', 'NOT NULL', 'CREATE OR REPLACE', 'DOUBLE PRECISION', 'NOT LIKE', 'END IF',
+              'DESC NULLS LAST', "AT TIME ZONE 'a  b'")
+
+
+def _multi_word_leaves(ctx):
+    """Tokens that carry whitespace inside: every multi-word spelling the rule table lexes as ONE token when its words are two blanks or
+    a line break and a blank apart -> [(ttype, value, text outside quotes)]"""
+    T = get_tables(ctx)
+    out = []
+    for word in MULTI_WORD:
+        head, q, lit = word.partition("'")
+        for sep in ('  ', '\n '):
+            text = sep.join(head.split() if sep == '  ' else head.lower().split()) + (sep + q + lit if q else '')
+            r, end, tt = T.lex_one(text)
+            if r is not None and end == len(text) and ' ' in text[:end]:
+                out.append((tt, text))
+    return out
+
+
 def check_stripws_simulation(ctx, rid='R10.9'):
     """strip_whitespace decided on concrete small trees: the source of StripWhitespaceFilter.process (with its getattr dispatch
     and every helper) is interpreted; afterwards the text of the statement has no leading or trailing whitespace, no two
@@ -372,10 +404,26 @@ def check_stripws_simulation(ctx, rid='R10.9'):
         return ''.join(s_ if isinstance(s_, str) else f'{s_[0]}[{show(s_[1])}]' for s_ in shape)
     params = [p_ for p_ in f.params if p_ not in ('self', 'cls')]
     bad, n = {}, 0
-    for where, shape in _sw_shapes():
+    shapes = _sw_shapes()
+    multi = _multi_word_leaves(ctx)
+    ctx.need(len(multi) >= 10, f'only {len(multi)} multi-word spellings are one token in the rule table')
+    for i, (tt_, text_) in enumerate(multi):
+        mk[f'k{i}'] = (tt_, text_)
+        shapes.append((f'multi-word token {text_!r}', ['x', 'w', f'k{i}', 'n', 'x']))
+        shapes.append((f'multi-word token {text_!r} in a group', ['x', 'w', ('T', ['x', 'w', f'k{i}']), 'w', 'x']))
+    LIT = TT(('Literal',))
+    T_ = get_tables(ctx)
+    for i, text_ in enumerate(("'e  f'", '`a  b`', '"c  d"', '$$a  b$$', '/* c  d */', '--  c  d\n')):
+        r_, end_, tt_ = T_.lex_one(text_)
+        ctx.need(r_ is not None and end_ == len(text_), f'{text_!r} is not one token in the rule table')
+        mk[f'o{i}'] = (tt_, text_)
+        shapes.append((f'opaque token {text_!r}', ['x', 'w', f'o{i}', 'w', 'x']))
+        shapes.append((f'opaque token {text_!r} in a group', ['x', 'w', ('T', [f'o{i}']), 'n', 'x']))
+    for where, shape in shapes:
         st = group(classes['S'], build(shape))
         lv0 = list(leaves(st))
         before = [t for t in lv0 if not WSP.contains(t.ttype)]
+        before_val = [t.value for t in before]
         apart = []
         for i, t in enumerate(lv0):
             if NAME.contains(t.ttype):
@@ -413,6 +461,8 @@ def check_stripws_simulation(ctx, rid='R10.9'):
                 gone = (a_, b_)
         if len(sig) != len(before) or any(a is not b for a, b in zip(sig, before)):
             why = 'a significant token is lost'
+        elif any(not _same_token_text(t, v0, COMMENT, LIT) for t, v0 in zip(sig, before_val)):
+            why = 'the text of a significant token is changed (more than the whitespace between the words of a multi-word keyword)'
         elif gone is not None:
             why = 'two names that were apart are fused'
         elif text != text.strip():
@@ -437,6 +487,9 @@ def check_stripws_simulation(ctx, rid='R10.9'):
                 else:
                     ws_run = 0
                     prev_sig = t
+                    if not COMMENT.contains(t.ttype) and not LIT.contains(t.ttype) and t.value[:1] not in '`"[' and re.search(r'\s\s', t.value.split("'")[0]):
+                        why = 'a run of two whitespace characters is left inside a multi-word token'
+                        break
         if why:
             bad.setdefault(why, []).append(f'{show(shape)} ({where}) -> {text!r}')
     ctx.info['strip_whitespace_simulated_trees'] = n
